@@ -1,4 +1,19 @@
 import PrimitivModel.Model.Graph
+/-!
+Lemmas about the reverse sweep of `Model/Graph.lean` (`zeroFill`, `addContribs`,
+`invalidateGrads`, `backwardStep`, `sweep`, `backward`), used by Props/C06.lean,
+Props/Findings/C06Blocked.lean and (through Lemmas/SweepAdjoint.lean) Props/C01/Sweep.lean.
+Core Lean only.  Nothing here changes a definition of the model; `backwardStep_eq`,
+`backward_eq` and `forwardRec_succ` restate the model's definitions in a form that is convenient to
+reason about and are proved equal to them.
+
+Contents: accessors (`gradAt`, `skel`, `gskel`, `shape`), frames (`SameFrame` for the sweep,
+`FwdFrame` for `forward`), gradients after each elementary operation, the loop principles
+`sweep_inv`/`sweep_inv_ok`/`sweep_inv_total`, commutation with transformations of the parameter
+gradients (`mapPG`, `shiftG`: "backward only adds"), the invariants `GradsBelow`, `OnlyAnc`
+(ancestors), `ZInv` (blocked paths), commutation with appended operators (`appendOps`), histories
+(`Cmd`, `runHist`), and the concrete graphs used in the `example`s.
+-/
 namespace Primitiv.Graph
 variable {τ : Type}
 
@@ -1767,5 +1782,772 @@ theorem appendOps_sweep (T : TOps τ) (e : List (OpInfo τ)) : ∀ (k : Nat) (s 
       cases u
       simp only
       exact ih s1 (by rw [skel_length hf.skel]; omega) (argsBelow_of_skel hf.skel hw)
+
+
+/-! ### blocked paths -/
+
+/-- what neither `forward` nor `backward` changes: kinds, arguments and sizes -/
+abbrev Shape (τ : Type) := List (Kind τ × List Addr × List Nat)
+
+def State.shape (s : State τ) : Shape τ := s.ops.map fun o => (o.kind, o.args, o.rets.map (·.size))
+
+theorem shape_eq_skel (s : State τ) : s.shape = s.skel.map fun x => (x.1, x.2.1, x.2.2.map Prod.fst) := by
+  simp only [State.shape, State.skel, List.map_map]
+  apply List.map_congr_left
+  intro o _
+  simp [OpInfo.skel, List.map_map, Function.comp_def, NodeInfo.skel]
+
+theorem shape_eq_gskel (s : State τ) : s.shape = s.gskel.map fun x => (x.1, x.2.1, x.2.2.map Prod.fst) := by
+  simp only [State.shape, State.gskel, List.map_map]
+  apply List.map_congr_left
+  intro o _
+  simp [OpInfo.gskel, List.map_map, Function.comp_def, NodeInfo.gskel]
+
+theorem shape_of_skel {s s' : State τ} (h : s'.skel = s.skel) : s'.shape = s.shape := by
+  rw [shape_eq_skel, shape_eq_skel, h]
+
+theorem shape_of_gskel {s s' : State τ} (h : s'.gskel = s.gskel) : s'.shape = s.shape := by
+  rw [shape_eq_gskel, shape_eq_gskel, h]
+
+/-- size of the node at `b` according to the shape -/
+def shapeSize (sh : Shape τ) (b : Addr) : Nat :=
+  match sh[b.oid]? with
+  | some (_, _, rets) => match rets[b.vid]? with
+    | some r => r
+    | none => 0
+  | none => 0
+
+theorem shape_getElem? {s : State τ} {k : Nat} {o : OpInfo τ} (ho : s.ops[k]? = some o) :
+    s.shape[k]? = some (o.kind, o.args, o.rets.map (·.size)) := by
+  simp [State.shape, List.getElem?_map, ho]
+
+theorem shapeSize_node {s : State τ} {b : Addr} {n : NodeInfo τ} (h : s.node? b = some n) :
+    shapeSize s.shape b = n.size := by
+  unfold State.node? at h
+  cases ho : s.ops[b.oid]? with
+  | none => rw [ho] at h; cases h
+  | some o =>
+    rw [ho] at h
+    simp only at h
+    simp [shapeSize, shape_getElem? ho, List.getElem?_map, h]
+
+/-- the backward rule `sem` never contributes to its `j`-th argument (`stop_gradient`, `BACKWARD_NOP`) -/
+def NoContrib (sem : OpSem τ) (j : Nat) : Prop :=
+  ∀ xs ys gys c, (sem.bwd xs ys gys)[j]? ≠ some (some c)
+
+/-- `Z` is a set of nodes from which the target can be reached only through blocked argument positions:
+whenever a node of `Z` is an argument of an operator, that position is blocked or all results of the
+operator are again in `Z` -/
+def BlockedSet (sk : Shape τ) (Z : Addr → Prop) : Prop :=
+  ∀ (i : Nat) (kind : Kind τ) (args : List Addr) (rets : List Nat),
+    sk[i]? = some (kind, args, rets) → ∀ sem, kind = .op sem →
+    ∀ (j : Nat) (b : Addr), args[j]? = some b → Z b →
+      NoContrib sem j ∨ ∀ j', j' < rets.length → Z ⟨i, j'⟩
+
+/-- exact arithmetic: a backward rule fed with zero gradients contributes zeros -/
+def ZeroPreserving (T : TOps τ) (sk : Shape τ) (Z : Addr → Prop) : Prop :=
+  ∀ (i : Nat) (kind : Kind τ) (args : List Addr) (rets : List Nat),
+    sk[i]? = some (kind, args, rets) → ∀ sem, kind = .op sem →
+    (∀ j', j' < rets.length → Z ⟨i, j'⟩) →
+    ∀ (xs ys : List τ) (j : Nat) (b : Addr) (c : τ), args[j]? = some b → Z b →
+      (sem.bwd xs ys (rets.map fun r => T.zeros r))[j]? = some (some c) → c = T.zeros (shapeSize sk b)
+
+/-- every node of `Z` has an invalid gradient or the exact zero of its size -/
+def ZInv (T : TOps τ) (sk : Shape τ) (Z : Addr → Prop) (s : State τ) : Prop :=
+  ∀ b, Z b → s.gradAt b = none ∨ s.gradAt b = some (T.zeros (shapeSize sk b))
+
+theorem zeroFill_zinv (T : TOps τ) (Z : Addr → Prop) (s : State τ) (l : List Addr)
+    (h : ZInv T s.shape Z s) : ZInv T s.shape Z (zeroFill T s l) := by
+  intro b hb
+  rw [gradAt_zeroFill]
+  by_cases hm : b ∈ l
+  · simp only [hm, if_true]
+    cases hn : s.node? b with
+    | none => left; rfl
+    | some n =>
+      right
+      simp only [Option.map_some, shapeSize_node hn]
+      have := h b hb
+      simp only [State.gradAt, hn, Option.bind_some, shapeSize_node hn] at this
+      rcases this with h0 | h0 <;> simp [h0]
+  · simp only [hm, if_false]; exact h b hb
+
+theorem accGrads_zero (T : TOps τ) (z : τ) (hzz : T.add z z = z) (b : Addr) (l : List (Addr × Option τ)) :
+    ∀ (G : Addr → Option τ), (∀ c, (b, some c) ∈ l → c = z) → (G b = none ∨ G b = some z) →
+      (accGrads T G l b = none ∨ accGrads T G l b = some z) := by
+  induction l with
+  | nil => intro G _ h; exact h
+  | cons x rest ih =>
+    intro G hl hG
+    obtain ⟨a, c⟩ := x
+    have hr : ∀ c, (b, some c) ∈ rest → c = z := fun c hc => hl c (List.mem_cons_of_mem _ hc)
+    cases c with
+    | none => exact ih G hr hG
+    | some c =>
+      simp only [accGrads]
+      apply ih _ hr
+      by_cases hba : b = a
+      · subst hba
+        have hc : c = z := hl c (by simp)
+        simp only [if_true]
+        rcases hG with h0 | h0
+        · left; simp [h0]
+        · right; simp [h0, hc, hzz]
+      · simp only [hba, if_false]; exact hG
+
+theorem gys_zero (T : TOps τ) (Z : Addr → Prop) {s : State τ} {k : Nat} {o : OpInfo τ}
+    (ho : s.ops[k]? = some o) (h : ZInv T s.shape Z s) (hall : ∀ j', j' < o.rets.length → Z ⟨k, j'⟩) :
+    o.gys T = (o.rets.map (·.size)).map fun r => T.zeros r := by
+  unfold OpInfo.gys
+  rw [List.map_map]
+  apply List.map_congr_left
+  intro n hn
+  obtain ⟨j, hj⟩ := List.mem_iff_getElem?.mp hn
+  have hjl : j < o.rets.length := (List.getElem?_eq_some_iff.mp hj).1
+  have hnode : s.node? ⟨k, j⟩ = some n := by rw [ops_getElem?_node? ho]; exact hj
+  have := h ⟨k, j⟩ (hall j hjl)
+  simp only [State.gradAt, hnode, Option.bind_some, shapeSize_node hnode] at this
+  rcases this with h0 | h0 <;> simp [h0]
+
+theorem backwardStep_zinv (T : TOps τ) (hz : ∀ n x, T.add x (T.zeros n) = x) (Z : Addr → Prop) (k : Nat)
+    (s : State τ) (hB : BlockedSet s.shape Z) (hP : ZeroPreserving T s.shape Z) (h : ZInv T s.shape Z s) :
+    ZInv T s.shape Z (backwardStep T s k).1 := by
+  rw [backwardStep_eq]
+  cases ho : s.ops[k]? with
+  | none => exact h
+  | some o =>
+    simp only
+    by_cases he : (!o.enabled) = true
+    · rw [if_pos he]; exact h
+    · rw [if_neg he]
+      have h1 := zeroFill_zinv T Z s (retAddrs k o) h
+      cases hxs : o.args.mapM s.valueOf? with
+      | none => exact h1
+      | some xs =>
+        simp only
+        have hsk1 := shape_of_skel (zeroFill_sameFrame T (retAddrs k o) s).skel
+        have h2 : ZInv T s.shape Z (zeroFill T (zeroFill T s (retAddrs k o)) o.args) := by
+          have := zeroFill_zinv T Z (zeroFill T s (retAddrs k o)) o.args (by rw [hsk1]; exact h1)
+          rw [hsk1] at this; exact this
+        intro b hb
+        rw [gradAt_invalidateGrads]
+        by_cases hbk : b.oid = k
+        · left; simp [hbk]
+        · simp only [hbk, if_false]
+          unfold stepCore
+          cases hkind : o.kind with
+          | param p => simp only; split <;> exact h2 b hb
+          | rnd => exact h2 b hb
+          | op sem =>
+            simp only
+            rw [gradAt_addContribs]
+            apply accGrads_zero T _ (hz _ _) b _ _ _ (h2 b hb)
+            intro c hc
+            obtain ⟨j, hj⟩ := List.mem_iff_getElem?.mp hc
+            rw [List.getElem?_zip_eq_some] at hj
+            obtain ⟨hja, hjc⟩ := hj
+            have hsk := shape_getElem? ho
+            rcases hB k _ _ _ hsk sem hkind j b hja hb with hno | hall
+            · exact absurd hjc (hno _ _ _ _)
+            · have hall' : ∀ j', j' < o.rets.length → Z ⟨k, j'⟩ := fun j' hj' => hall j' (by simpa using hj')
+              rw [gys_zero T Z ho h hall'] at hjc
+              exact hP k _ _ _ hsk sem hkind hall xs o.ys j b c hja hb hjc
+
+theorem backwardStep_pgrad_blocked (T : TOps τ) (hz : ∀ n x, T.add x (T.zeros n) = x) (Z : Addr → Prop)
+    (k p : Nat) (s : State τ) (h : ZInv T s.shape Z s)
+    (hp : ∀ i, s.kindAt i = some (.param p) → Z ⟨i, 0⟩) :
+    (backwardStep T s k).1.params.grad p = s.params.grad p := by
+  rw [backwardStep_eq]
+  cases ho : s.ops[k]? with
+  | none => rfl
+  | some o =>
+    simp only
+    by_cases he : (!o.enabled) = true
+    · rw [if_pos he]
+    · rw [if_neg he]
+      cases hxs : o.args.mapM s.valueOf? with
+      | none => simp
+      | some xs =>
+        simp only [invalidateGrads_params]
+        unfold stepCore
+        cases hkind : o.kind with
+        | rnd => simp
+        | op sem => simp
+        | param p' =>
+          simp only
+          cases hg : o.gys T with
+          | nil => simp
+          | cons g rest =>
+            simp only [zeroFill_params]
+            by_cases hpp : p = p'
+            · subst hpp
+              simp only [if_true]
+              have hZ : Z ⟨k, 0⟩ := hp k (by simp [State.kindAt, ho, hkind])
+              unfold OpInfo.gys at hg
+              cases hr : o.rets with
+              | nil => rw [hr] at hg; simp at hg
+              | cons n rs =>
+                rw [hr] at hg
+                simp only [List.map_cons, List.cons.injEq] at hg
+                have hnode : s.node? ⟨k, 0⟩ = some n := by rw [ops_getElem?_node? ho, hr]; rfl
+                have := h ⟨k, 0⟩ hZ
+                simp only [State.gradAt, hnode, Option.bind_some, shapeSize_node hnode] at this
+                rw [← hg.1]
+                rcases this with h0 | h0 <;> simp [h0, hz]
+            · simp [hpp]
+
+theorem sweep_pgrad_blocked (T : TOps τ) (hz : ∀ n x, T.add x (T.zeros n) = x) (Z : Addr → Prop)
+    (p : Nat) (k : Nat) (s : State τ) (hB : BlockedSet s.shape Z) (hP : ZeroPreserving T s.shape Z)
+    (h : ZInv T s.shape Z s) (hp : ∀ i, s.kindAt i = some (.param p) → Z ⟨i, 0⟩) :
+    (sweep T k s).1.params.grad p = s.params.grad p := by
+  have := sweep_inv T
+    (fun s' => s'.skel = s.skel ∧ ZInv T s.shape Z s' ∧ s'.params.grad p = s.params.grad p)
+    (fun k s' ⟨hsk, hzi, hg⟩ => by
+      have hf := backwardStep_sameFrame T s' k
+      have hsh := shape_of_skel hsk
+      refine ⟨hf.skel.trans hsk, ?_, ?_⟩
+      · have := backwardStep_zinv T hz Z k s' (hsh ▸ hB) (hsh ▸ hP) (hsh ▸ hzi)
+        rw [hsh] at this; exact this
+      · rw [← hg]
+        exact backwardStep_pgrad_blocked T hz Z k p s' (hsh ▸ hzi) (by rw [kindAt_of_skel hsk]; exact hp))
+    k s ⟨rfl, h, rfl⟩
+  exact this.2.2
+
+theorem zinv_seed (T : TOps τ) (Z : Addr → Prop) (s : State τ) (a : Addr) (hg : AllGradsInvalid s)
+    (ha : ¬ Z a) : ZInv T (seed T s a).shape Z (seed T s a) := by
+  intro b hb
+  left
+  rw [gradAt_seed]
+  have : b ≠ a := fun e => ha (e ▸ hb)
+  simp [this, hg b]
+
+/-- exact arithmetic: a parameter all of whose Parameter nodes lie in a blocked set keeps its gradient value -/
+theorem backward_pgrad_blocked (T : TOps τ) (hz : ∀ n x, T.add x (T.zeros n) = x) (Z : Addr → Prop)
+    (s : State τ) (a : Addr) (p : Nat) (hg : AllGradsInvalid s) (ha : ¬ Z a)
+    (hB : BlockedSet s.shape Z) (hP : ZeroPreserving T s.shape Z)
+    (hp : ∀ i, s.kindAt i = some (.param p) → Z ⟨i, 0⟩) :
+    (backward T s a).1.params.grad p = s.params.grad p := by
+  rw [backward_eq]
+  split
+  · rfl
+  · have hf := fwdPhase_fwdFrame T s a
+    rcases hph : fwdPhase T s a with ⟨s1, r⟩
+    rw [hph] at hf
+    cases r with
+    | error e => simp only; rw [hf.params]
+    | ok u =>
+      cases u
+      simp only at hf ⊢
+      have hg1 : AllGradsInvalid s1 := fun b => by rw [gskel_gradAt hf.gskel]; exact hg b
+      have hsf := seed_sameFrame T s1 a
+      have hsh : (seed T s1 a).shape = s.shape := (shape_of_skel hsf.skel).trans (shape_of_gskel hf.gskel)
+      have hkind : (seed T s1 a).kindAt = s.kindAt := (kindAt_of_skel hsf.skel).trans (kindAt_of_gskel hf.gskel)
+      rw [sweep_pgrad_blocked T hz Z p _ _ (hsh ▸ hB) (hsh ▸ hP) (zinv_seed T Z s1 a hg1 ha)
+        (by rw [hkind]; exact hp)]
+      simp [hf.params]
+
+
+/-! ### histories -/
+
+/-- the operations of a history on one graph and the parameters it uses -/
+inductive Cmd (τ : Type) where
+  | addOp (kind : Kind τ) (args : List Addr) (sizes : List Nat)
+  | forward (a : Addr)
+  | backward (a : Addr)
+  /-- optimizer update, `Parameter::load`, … -/
+  | setValue (p : Nat) (v : τ)
+  /-- `reset_gradient`, or any other write to a parameter gradient from outside -/
+  | setGrad (p : Nat) (g : τ)
+  /-- fault-injection schedule of the harness -/
+  | schedule (f : Option Nat)
+
+/-- one operation; `none`: the process aborted (`CHECK_NODE`) or `backward` threw -/
+def Cmd.run (T : TOps τ) (s : State τ) : Cmd τ → Option (State τ)
+  | .addOp kind args sizes =>
+    match addOperator s kind args sizes with
+    | .ok (s', _) => some s'
+    | .error _ => none
+  | .forward a => some (Primitiv.Graph.forward T s a).1
+  | .backward a =>
+    match Primitiv.Graph.backward T s a with
+    | (s', .ok ()) => some s'
+    | (_, .error _) => none
+  | .setValue p v => some { s with params := { s.params with value := fun q => if q = p then v else s.params.value q } }
+  | .setGrad p g => some { s with params := { s.params with grad := fun q => if q = p then g else s.params.grad q } }
+  | .schedule f => some { s with failIn := f }
+
+def runHist (T : TOps τ) : State τ → List (Cmd τ) → Option (State τ)
+  | s, [] => some s
+  | s, c :: rest =>
+    match c.run T s with
+    | some s' => runHist T s' rest
+    | none => none
+
+/-- the invariant that makes backward passes independent of each other -/
+def GInv (s : State τ) : Prop := AllGradsInvalid s ∧ ArgsBelow s
+
+theorem validAddr_lt {s : State τ} {a : Addr} (h : s.validAddr a = true) : a.oid < s.ops.length := by
+  unfold State.validAddr at h
+  cases ho : s.ops[a.oid]? with
+  | none => rw [ho] at h; cases h
+  | some o => exact (List.getElem?_eq_some_iff.mp ho).1
+
+theorem addOperator_ginv (s s' : State τ) (kind : Kind τ) (args : List Addr) (sizes : List Nat) (i : Nat)
+    (h : GInv s) (hr : addOperator s kind args sizes = .ok (s', i)) : GInv s' := by
+  unfold addOperator at hr
+  split at hr
+  · rename_i hall
+    cases hr
+    constructor
+    · intro a
+      unfold State.gradAt State.node?
+      simp only
+      by_cases hlt : a.oid < s.ops.length
+      · rw [List.getElem?_append_left hlt]
+        exact h.1 a
+      · rw [List.getElem?_append_right (by omega)]
+        cases hi : ([({ kind := kind, args := args, rets := sizes.map fun n => ({ size := n } : NodeInfo τ) } : OpInfo τ)])[a.oid - s.ops.length]? with
+        | none => rfl
+        | some o =>
+          have : a.oid - s.ops.length = 0 := by
+            have := (List.getElem?_eq_some_iff.mp hi).1; simpa using this
+          rw [this] at hi
+          simp only [List.getElem?_cons_zero, Option.some.injEq] at hi
+          subst hi
+          simp only [List.getElem?_map]
+          cases sizes[a.vid]? <;> rfl
+    · intro j o ho b hb
+      simp only at ho
+      by_cases hlt : j < s.ops.length
+      · rw [List.getElem?_append_left hlt] at ho
+        exact h.2 j o ho b hb
+      · rw [List.getElem?_append_right (by omega)] at ho
+        have hj : j - s.ops.length = 0 := by
+          have := (List.getElem?_eq_some_iff.mp ho).1; simpa using this
+        rw [hj] at ho
+        simp only [List.getElem?_cons_zero, Option.some.injEq] at ho
+        subst ho
+        have := validAddr_lt (List.all_eq_true.mp hall b hb)
+        omega
+  · cases hr
+
+theorem backward_argsBelow (T : TOps τ) (s : State τ) (a : Addr) (h : ArgsBelow s) :
+    ArgsBelow (backward T s a).1 := by
+  rw [backward_eq]
+  split
+  · exact h
+  · have hf := fwdPhase_fwdFrame T s a
+    rcases hph : fwdPhase T s a with ⟨s1, r⟩
+    rw [hph] at hf
+    have h1 := argsBelow_of_gskel hf.gskel h
+    cases r with
+    | error e => exact h1
+    | ok u =>
+      cases u
+      exact argsBelow_of_skel ((seed_sameFrame T s1 a).trans (sweep_sameFrame T _ _)).skel h1
+
+theorem Cmd.run_ginv (T : TOps τ) (s s' : State τ) (c : Cmd τ) (h : GInv s) (hr : c.run T s = some s') :
+    GInv s' := by
+  cases c with
+  | addOp kind args sizes =>
+    simp only [Cmd.run] at hr
+    cases hres : addOperator s kind args sizes with
+    | error e => rw [hres] at hr; cases hr
+    | ok r =>
+      obtain ⟨s'', i⟩ := r
+      rw [hres] at hr
+      simp only [Option.some.injEq] at hr
+      subst hr
+      exact addOperator_ginv s s'' kind args sizes i h hres
+  | forward a =>
+    simp only [Cmd.run, Option.some.injEq] at hr
+    subst hr
+    have hf := forward_fwdFrame T s a
+    exact ⟨fun b => by rw [gskel_gradAt hf.gskel]; exact h.1 b, argsBelow_of_gskel hf.gskel h.2⟩
+  | backward a =>
+    simp only [Cmd.run] at hr
+    rcases hb : Primitiv.Graph.backward T s a with ⟨s1, r⟩
+    rw [hb] at hr
+    cases r with
+    | error e => cases hr
+    | ok u =>
+      cases u
+      simp only [Option.some.injEq] at hr
+      subst hr
+      refine ⟨backward_allGradsInvalid T s s1 a h.1 h.2 hb, ?_⟩
+      have := backward_argsBelow T s a h.2
+      rw [hb] at this; exact this
+  | setValue p v => simp only [Cmd.run, Option.some.injEq] at hr; subst hr; exact h
+  | setGrad p g => simp only [Cmd.run, Option.some.injEq] at hr; subst hr; exact h
+  | schedule f => simp only [Cmd.run, Option.some.injEq] at hr; subst hr; exact h
+
+theorem runHist_ginv (T : TOps τ) (hist : List (Cmd τ)) : ∀ (s s' : State τ), GInv s →
+    runHist T s hist = some s' → GInv s' := by
+  induction hist with
+  | nil => intro s s' h hr; simp only [runHist, Option.some.injEq] at hr; subst hr; exact h
+  | cons c rest ih =>
+    intro s s' h hr
+    simp only [runHist] at hr
+    cases hc : c.run T s with
+    | none => rw [hc] at hr; cases hr
+    | some s1 =>
+      rw [hc] at hr
+      exact ih s1 s' (Cmd.run_ginv T s s1 c h hc) hr
+
+/-- a new graph -/
+def emptyGraph (params : Params τ) (sample : Nat → Nat → τ) : State τ :=
+  { ops := [], params := params, sample := sample }
+
+theorem emptyGraph_ginv (params : Params τ) (sample : Nat → Nat → τ) : GInv (emptyGraph params sample) := by
+  constructor
+  · intro a; rfl
+  · intro i o ho; cases ho
+
+
+/-! ### decidable forms of the hypotheses, for concrete states -/
+
+def State.gradsInvalidB (s : State τ) : Bool := s.ops.all fun o => o.rets.all fun n => n.grad.isNone
+
+def State.argsBelowB (s : State τ) : Bool := s.ops.zipIdx.all fun x => x.1.args.all fun a => decide (a.oid < x.2)
+
+theorem allGradsInvalid_of_B {s : State τ} (h : s.gradsInvalidB = true) : AllGradsInvalid s := by
+  intro a
+  unfold State.gradAt State.node?
+  cases ho : s.ops[a.oid]? with
+  | none => rfl
+  | some o =>
+    simp only
+    cases hn : o.rets[a.vid]? with
+    | none => rfl
+    | some n =>
+      simp only [State.gradsInvalidB, List.all_eq_true] at h
+      have := h o (List.mem_iff_getElem?.mpr ⟨_, ho⟩) n (List.mem_iff_getElem?.mpr ⟨_, hn⟩)
+      simpa using this
+
+theorem argsBelow_of_B {s : State τ} (h : s.argsBelowB = true) : ArgsBelow s := by
+  intro i o ho a ha
+  simp only [State.argsBelowB, List.all_eq_true] at h
+  have hm : (o, i) ∈ s.ops.zipIdx := by
+    apply List.mem_iff_getElem?.mpr
+    exact ⟨i, by simp [List.getElem?_zipIdx, ho]⟩
+  have := h (o, i) hm a ha
+  simpa using this
+
+/-! ### a concrete graph for the examples: `y = x * x`, one parameter, integer "tensors" -/
+
+def TInt : TOps Int := { zeros := fun _ => 0, ones := fun _ => 1, add := (· + ·) }
+
+def mulSem : OpSem Int where
+  nret := 1
+  fwd := fun xs => match xs with | [x, y] => some [x * y] | _ => none
+  bwd := fun xs _ gys => match xs, gys with
+    | [x, y], [g] => [some (g * y), some (g * x)]
+    | _, _ => []
+
+/-- operator 0: Parameter 0; operator 1: `n0 * n0`; parameter value 3, prior gradient 10 -/
+def exSquare : State Int where
+  ops := [ { kind := .param 0, args := [], rets := [{ size := 1 }] },
+           { kind := .op mulSem, args := [⟨0, 0⟩, ⟨0, 0⟩], rets := [{ size := 1 }] } ]
+  params := { value := fun _ => 3, grad := fun _ => 10 }
+  sample := fun _ _ => 0
+
+example : exSquare.gradsInvalidB = true := by decide
+example : exSquare.argsBelowB = true := by decide
+example : (backward TInt exSquare ⟨1, 0⟩).2 = .ok () := by rfl
+example : (backward TInt exSquare ⟨1, 0⟩).1.params.grad 0 = 16 := by rfl
+example : (backward TInt exSquare ⟨1, 0⟩).1.params.grad 0 = 16 := by decide
+
+
+/-! ### a concrete graph with a blocked path: `y = stop_gradient(p0) + p1` -/
+
+/-- `stop_gradient`: identity forward, `BACKWARD_NOP` -/
+def stopSem : OpSem τ where
+  nret := 1
+  fwd := fun xs => match xs with | [x] => some [x] | _ => none
+  bwd := fun _ _ _ => [none]
+
+/-- `a + b`: the backward rule adds `gy` into both argument gradients -/
+def addSem (T : TOps τ) : OpSem τ where
+  nret := 1
+  fwd := fun xs => match xs with | [x, y] => some [T.add x y] | _ => none
+  bwd := fun _ _ gys => match gys with | [g] => [some g, some g] | _ => []
+
+/-- operator 0: Parameter 0; 1: `stop_gradient(n0)`; 2: Parameter 1; 3: `n1 + n2` -/
+def exBlocked (T : TOps τ) (v g : τ) : State τ where
+  ops := [ { kind := .param 0, args := [], rets := [{ size := 1 }] },
+           { kind := .op stopSem, args := [⟨0, 0⟩], rets := [{ size := 1 }] },
+           { kind := .param 1, args := [], rets := [{ size := 1 }] },
+           { kind := .op (addSem T), args := [⟨1, 0⟩, ⟨2, 0⟩], rets := [{ size := 1 }] } ]
+  params := { value := fun _ => v, grad := fun _ => g }
+  sample := fun _ _ => v
+
+theorem exBlocked_kindAt (T : TOps τ) (v g : τ) (i : Nat) (h : (exBlocked T v g).kindAt i = some (.param 0)) :
+    i = 0 := by
+  match i, h with
+  | 0, _ => rfl
+  | 1, h => simp [State.kindAt, exBlocked] at h
+  | 2, h => simp [State.kindAt, exBlocked] at h
+  | 3, h => simp [State.kindAt, exBlocked] at h
+  | i + 4, h => simp [State.kindAt, exBlocked] at h
+
+theorem exBlocked_blockedSet (T : TOps τ) (v g : τ) :
+    BlockedSet (exBlocked T v g).shape (fun b => b = ⟨0, 0⟩) := by
+  intro i kind args rets h sem hk j b hj hb
+  subst hb
+  match i, h with
+  | 0, h =>
+    simp [State.shape, exBlocked] at h
+    obtain ⟨_, rfl, _⟩ := h
+    simp at hj
+  | 1, h =>
+    simp [State.shape, exBlocked] at h
+    obtain ⟨rfl, rfl, _⟩ := h
+    left
+    cases hk
+    have : j = 0 := by
+      cases j with
+      | zero => rfl
+      | succ j => simp at hj
+    subst this
+    intro xs ys gys c
+    simp [stopSem]
+  | 2, h =>
+    simp [State.shape, exBlocked] at h
+    obtain ⟨_, rfl, _⟩ := h
+    simp at hj
+  | 3, h =>
+    simp [State.shape, exBlocked] at h
+    obtain ⟨_, rfl, _⟩ := h
+    match j, hj with
+    | 0, hj => simp at hj
+    | 1, hj => simp at hj
+    | j + 2, hj => simp at hj
+  | i + 4, h => simp [State.shape, exBlocked] at h
+
+theorem exBlocked_zeroPreserving (T : TOps τ) (v g : τ) :
+    ZeroPreserving T (exBlocked T v g).shape (fun b => b = ⟨0, 0⟩) := by
+  intro i kind args rets h sem hk hall xs ys j b c hj hb hc
+  match i, h with
+  | 0, h =>
+    simp [State.shape, exBlocked] at h
+    obtain ⟨rfl, _, _⟩ := h
+    cases hk
+  | 1, h =>
+    simp [State.shape, exBlocked] at h
+    obtain ⟨_, _, rfl⟩ := h
+    have := hall 0 (by simp)
+    simp at this
+  | 2, h =>
+    simp [State.shape, exBlocked] at h
+    obtain ⟨rfl, _, _⟩ := h
+    cases hk
+  | 3, h =>
+    simp [State.shape, exBlocked] at h
+    obtain ⟨_, _, rfl⟩ := h
+    have := hall 0 (by simp)
+    simp at this
+  | i + 4, h => simp [State.shape, exBlocked] at h
+
+/-- gradients that count the `+=` executed on them -/
+def TCount : TOps Nat := { zeros := fun _ => 0, ones := fun _ => 0, add := fun g _ => g + 1 }
+
+example : (backward TCount (exBlocked TCount 0 0) ⟨3, 0⟩).1.params.grad 0 = 1 := by decide
+example : (backward TInt (exBlocked TInt 3 10) ⟨3, 0⟩).1.params.grad 0 = 10 := by decide
+example : (backward TInt (exBlocked TInt 3 10) ⟨3, 0⟩).1.params.grad 1 = 11 := by decide
+
+
+/-! ### operators after the target: the forward phase -/
+
+theorem appendOps_storeValues (s : State τ) (e : List (OpInfo τ)) (k : Nat) (vals : List τ)
+    (h : k < s.ops.length) : (s.appendOps e).storeValues k vals = (s.storeValues k vals).appendOps e := by
+  unfold State.storeValues
+  rw [appendOps_getElem? s e h]
+  cases s.ops[k]? with
+  | none => rfl
+  | some o => simp [State.appendOps, h]
+
+theorem appendOps_applyOp (e : List (OpInfo τ)) (s1 : State τ) (a : Addr) (kind : Kind τ) (n : NodeInfo τ)
+    (xs : List τ) (h : a.oid < s1.ops.length) :
+    applyOp (s1.appendOps e) a kind n xs = ((applyOp s1 a kind n xs).1.appendOps e, (applyOp s1 a kind n xs).2) := by
+  simp only [applyOp]
+  have hfail : (s1.appendOps e).failIn = s1.failIn := rfl
+  rw [hfail]
+  have hcore : ∀ s : State τ, a.oid < s.ops.length → applyOpCore (s.appendOps e) a kind n xs
+      = ((applyOpCore s a kind n xs).1.appendOps e, (applyOpCore s a kind n xs).2) := by
+    intro s hs
+    unfold applyOpCore
+    cases kind with
+    | param p => rfl
+    | rnd =>
+      simp only
+      have := appendOps_storeValues { s with rndPos := s.rndPos + 1, log := s.log ++ [a.oid] } e a.oid
+        [s.sample s.rndPos n.size] hs
+      rw [← this]; rfl
+    | op sem =>
+      simp only
+      cases sem.fwd xs with
+      | none => rfl
+      | some ys =>
+        simp only
+        have := appendOps_storeValues { s with log := s.log ++ [a.oid] } e a.oid ys hs
+        cases ys[a.vid]? <;> (simp only; rw [← this]; rfl)
+  split
+  · rfl
+  · rename_i fi _
+    have : (if opFaulty kind = true then { s1.appendOps e with failIn := Option.map (fun x => x - 1) (if opFaulty kind = true then s1.failIn else none) } else s1.appendOps e)
+        = (if opFaulty kind = true then { s1 with failIn := Option.map (fun x => x - 1) (if opFaulty kind = true then s1.failIn else none) } else s1).appendOps e := by
+      split <;> rfl
+    rw [this, hcore]
+    split <;> exact h
+
+/-- evaluating a list of arguments below `bound` commutes with appending operators, when the
+evaluator does (on states of at least `bound` operators with arguments below) -/
+theorem appendOps_forwardArgsWith (e : List (OpInfo τ)) (bound : Nat)
+    (ev : State τ → Addr → State τ × Except Err τ)
+    (hev : ∀ (s : State τ) (a : Addr), bound ≤ s.ops.length → ArgsBelow s → a.oid < bound →
+      ev (s.appendOps e) a = ((ev s a).1.appendOps e, (ev s a).2))
+    (hfr : ∀ s a, FwdFrame s (ev s a).1) :
+    ∀ (l : List Addr) (s : State τ), bound ≤ s.ops.length → ArgsBelow s → (∀ a ∈ l, a.oid < bound) →
+      forwardArgsWith ev (s.appendOps e) l =
+        ((forwardArgsWith ev s l).1.appendOps e, (forwardArgsWith ev s l).2) := by
+  intro l
+  induction l with
+  | nil => intro s _ _ _; rfl
+  | cons a rest ih =>
+    intro s hb hw hl
+    simp only [forwardArgsWith]
+    rw [hev s a hb hw (hl a (by simp))]
+    have hf := hfr s a
+    rcases hev' : ev s a with ⟨s1, r⟩
+    rw [hev'] at hf
+    cases r with
+    | error e => rfl
+    | ok v =>
+      simp only at hf ⊢
+      rw [ih s1 (by rw [gskel_length hf.gskel]; exact hb) (argsBelow_of_gskel hf.gskel hw)
+        (fun b hb' => hl b (by simp [hb']))]
+      rcases forwardArgsWith ev s1 rest with ⟨s2, r2⟩
+      cases r2 <;> rfl
+
+theorem appendOps_forwardRec (T : TOps τ) (e : List (OpInfo τ)) : ∀ (fuel : Nat) (s : State τ) (a : Addr),
+    a.oid < s.ops.length → ArgsBelow s →
+    forwardRec T fuel (s.appendOps e) a = ((forwardRec T fuel s a).1.appendOps e, (forwardRec T fuel s a).2) := by
+  intro fuel
+  induction fuel with
+  | zero => intro s a _ _; rfl
+  | succ fuel ih =>
+    intro s a ha hw
+    simp only [forwardRec_succ]
+    rw [appendOps_getElem? s e ha]
+    have hpv : (s.appendOps e).params.value = s.params.value := rfl
+    rw [hpv]
+    cases ho : s.ops[a.oid]? with
+    | none => rfl
+    | some o =>
+      simp only
+      have key : (match o.rets[a.vid]? with
+          | none => (s.appendOps e, Except.error Err.crash)
+          | some n =>
+            match n.value with
+            | some v => (s.appendOps e, Except.ok v)
+            | none =>
+              match forwardArgsWith (forwardRec T fuel) (s.appendOps e) o.args with
+              | (s1, Except.error e) => (s1, Except.error e)
+              | (s1, Except.ok xs) => applyOp s1 a o.kind n xs)
+          = (State.appendOps (match o.rets[a.vid]? with
+          | none => (s, Except.error Err.crash)
+          | some n =>
+            match n.value with
+            | some v => (s, Except.ok v)
+            | none =>
+              match forwardArgsWith (forwardRec T fuel) s o.args with
+              | (s1, Except.error e) => (s1, Except.error e)
+              | (s1, Except.ok xs) => applyOp s1 a o.kind n xs).1 e,
+            (match o.rets[a.vid]? with
+          | none => (s, Except.error Err.crash)
+          | some n =>
+            match n.value with
+            | some v => (s, Except.ok v)
+            | none =>
+              match forwardArgsWith (forwardRec T fuel) s o.args with
+              | (s1, Except.error e) => (s1, Except.error e)
+              | (s1, Except.ok xs) => applyOp s1 a o.kind n xs).2) := by
+        cases o.rets[a.vid]? with
+        | none => rfl
+        | some n =>
+          simp only
+          cases n.value with
+          | some v => rfl
+          | none =>
+            simp only
+            have h2 := appendOps_forwardArgsWith e a.oid (forwardRec T fuel)
+              (fun s' b hb' hw' hb => ih s' b (Nat.lt_of_lt_of_le hb hb') hw')
+              (forwardRec_fwdFrame T fuel) o.args s (Nat.le_of_lt ha) hw (hw a.oid o ho)
+            rw [h2]
+            have hf := forwardArgsWith_rel FwdFrame FwdFrame.refl (fun _ _ _ => FwdFrame.trans)
+              (forwardRec T fuel) (forwardRec_fwdFrame T fuel) o.args s
+            rcases hfa : forwardArgsWith (forwardRec T fuel) s o.args with ⟨s1, r⟩
+            rw [hfa] at hf
+            cases r with
+            | error e => rfl
+            | ok xs =>
+              simp only at hf ⊢
+              exact appendOps_applyOp e s1 a o.kind n xs (by rw [gskel_length hf.gskel]; exact ha)
+      cases hk : o.kind with
+      | param p => simp only; split <;> rfl
+      | rnd => rw [hk] at key; exact key
+      | op sem => rw [hk] at key; exact key
+
+theorem appendOps_validAddr (s : State τ) (e : List (OpInfo τ)) (a : Addr) (h : s.validAddr a = true) :
+    (s.appendOps e).validAddr a = true := by
+  unfold State.validAddr
+  rw [appendOps_getElem? s e (validAddr_lt h)]
+  exact h
+
+theorem appendOps_node (s : State τ) (e : List (OpInfo τ)) (a : Addr) (h : a.oid < s.ops.length) :
+    (s.appendOps e).node? a = s.node? a := by
+  unfold State.node?
+  rw [appendOps_getElem? s e h]
+
+/-- operators created after the target do not influence `backward` and are not touched by it -/
+theorem appendOps_backward (T : TOps τ) (e : List (OpInfo τ)) (s : State τ) (a : Addr)
+    (hv : s.validAddr a = true) (hw : ArgsBelow s) :
+    backward T (s.appendOps e) a = ((backward T s a).1.appendOps e, (backward T s a).2) := by
+  have hlt := validAddr_lt hv
+  simp only [backward_eq]
+  rw [appendOps_validAddr s e a hv, hv]
+  simp only [Bool.not_true, Bool.false_eq_true, if_false]
+  have hfp : fwdPhase T (s.appendOps e) a = ((fwdPhase T s a).1.appendOps e, (fwdPhase T s a).2) := by
+    unfold fwdPhase
+    rw [appendOps_node s e a hlt]
+    cases s.node? a with
+    | none => rfl
+    | some n =>
+      simp only
+      split
+      · rfl
+      · have : forward T (s.appendOps e) a = ((forward T s a).1.appendOps e, (forward T s a).2) := by
+          unfold forward
+          rw [if_pos (appendOps_validAddr s e a hv), if_pos hv]
+          exact appendOps_forwardRec T e _ s a hlt hw
+        rw [this]
+        rcases forward T s a with ⟨s1, r⟩
+        cases r <;> rfl
+  rw [hfp]
+  have hf := fwdPhase_fwdFrame T s a
+  rcases hfp' : fwdPhase T s a with ⟨s1, r⟩
+  rw [hfp'] at hf
+  cases r with
+  | error e => rfl
+  | ok u =>
+    cases u
+    simp only at hf ⊢
+    have hlen : s1.ops.length = s.ops.length := gskel_length hf.gskel
+    have hseed : seed T (s1.appendOps e) a = (seed T s1 a).appendOps e :=
+      appendOps_updNode s1 e a _ (by rw [hlen]; exact hlt)
+    rw [hseed]
+    have hsf := seed_sameFrame T s1 a
+    exact appendOps_sweep T e _ _ (by rw [skel_length hsf.skel, hlen]; omega)
+      (argsBelow_of_skel hsf.skel (argsBelow_of_gskel hf.gskel hw))
 
 end Primitiv.Graph
